@@ -18,7 +18,9 @@ HOSTILE = ["", " ", "'", '"', "'ab", '"ab', "(", ")", "[", "]", "{", "\\", "-", 
            "None", "a b", "a.b", ".", "..", "....", "1...", "...1", "1...2...3", "5...1", "x" * 300, "١٢٣", "²", "1³", "①", "⁵⁶", "9" * 4400, "٣" * 4400, "1٣", "Ⅷ", "½", " ", "﻿", "%Q", "(?P<n>", "[a-", "a{2,1}", "*a", "\\", "DD.DD.YYYY", "hh:hh", "YYYY-YY-YYYY", "%d.%d",
            "1\n  2\n 3", " 1\n2", "a\n\tb\n    c", "(\n1",
            # an empty-mark on fields that must not be empty, empty / missing choices
-           "x", " X ", "''", '""', "a,''", "a,,b", ",a", "a,"]
+           "x", " X ", "''", '""', "a,''", "a,,b", ",a", "a,",
+           # text no file can hold but the API accepts (lone surrogates), continuation lines
+           "\ud800", "a\udfffb", "\\\nid < 3", "id \\\n< 3", "\\\n"]
 
 BASE_CIDS = {
     "delimited": [["D", "Format", "Delimited"], ["D", "Header", "1"], ["D", "Encoding", "utf-8"], ["D", "Allowed characters", "32..."],
@@ -115,7 +117,8 @@ def run(ctx):
         if itag not in ("ok", "iface") and not itag.startswith("data:"):
             ctx.violation(cid_signature(fmt, rows, i, j, itag), "CID cell %s = %r makes Cid.read raise %s" % (kind, h, impl), case)
         mtag = mo.split("@")[0].split(" ")[0]
-        if mtag == "unsupported":
+        if mtag == "unsupported" or any(0xD800 <= ord(ch_) <= 0xDFFF for ch_ in h):
+            # (lone surrogates are no characters of the model's strings: the statement is checked above, the class is not compared)
             ctx.skip(case)
         elif mtag != itag:
             ctx.note_drift(case)
@@ -182,6 +185,49 @@ def run(ctx):
                     if tag == "ok" or not core.is_cutplace_tag(tag):
                         ctx.violation("C10:data:non-text:%s:%s" % (type(value).__name__, tag),
                                       "cell %r (no text) in %s field %s: %s gives %s" % (value, ty, DATA_CID[1 + j][1], api, tag), case)
+    # ---- every codec name the Encoding property might be given: refused as interface error, or usable for reading and writing --------
+    ENCODINGS = ["utf-8", "utf-16", "utf-16-le", "utf-32", "utf-8-sig", "latin-1", "ascii", "cp1252", "undefined", "base64", "hex", "rot13", "zlib", "bz2", "uu",
+                 "quopri", "idna", "punycode", "unicode_escape", "raw_unicode_escape", "charmap", "utf-7", "cp037", "big5", "shift_jis", "no-such-codec", "utf 8", ""]
+    enc_tmp = tempfile.mkdtemp(prefix="c10-enc-")
+    try:
+        for fmt_name, extra_rows, record in (("Delimited", [], b"ab,17\ncd,18\n"), ("Fixed", [["D", "Line delimiter", "LF"]], b"ab17\ncd18\n")):
+            for enc_name in ENCODINGS:
+                enc_rows = [["D", "Format", fmt_name]] + extra_rows + [["D", "Encoding", enc_name], ["F", "name", "", "", "2", "Text", ""], ["F", "id", "", "", "2", "Integer", ""]]
+                outcomes = []
+                try:
+                    enc_cid = interface.Cid()
+                    enc_cid.read("c10-enc", enc_rows)
+                    outcomes.append(("declare", "ok"))
+                except Exception as error:  # noqa
+                    outcomes.append(("declare", core.classify_exception(error)))
+                    enc_cid = None
+                if enc_cid is not None:
+                    data_path = os.path.join(enc_tmp, "data.txt")
+                    with open(data_path, "wb") as data_file:
+                        data_file.write(record)
+                    for api in ("rows", "validate", "write"):
+                        try:
+                            if api == "rows":
+                                items = list(validio.rows(enc_cid, data_path, on_error="yield"))
+                                bad = [i_ for i_ in items if isinstance(i_, Exception) and not isinstance(i_, errors.DataError)]
+                                if bad:
+                                    raise bad[0]
+                            elif api == "validate":
+                                validio.validate(enc_cid, data_path)
+                            else:
+                                with validio.Writer(enc_cid, os.path.join(enc_tmp, "out.txt")) as writer:
+                                    writer.write_row(["xy", "42"])
+                                    writer.write_row(["\u00e9\u20ac", "43"])
+                            outcomes.append((api, "ok"))
+                        except Exception as error:  # noqa
+                            outcomes.append((api, core.classify_exception(error)))
+                for api, tag in outcomes:
+                    ctx.count(key=("encoding", fmt_name, enc_name, api), branch="encoding:%s:%s" % (api, tag.split(":")[0]))
+                    if tag != "ok" and not core.is_cutplace_tag(tag):
+                        ctx.violation("C10:encoding:%s:%s" % (api, tag), "Encoding %r (%s): %s raises %s" % (enc_name, fmt_name, api, tag),
+                                      {"encoding": enc_name, "format": fmt_name, "api": api, "outcome": tag})
+    finally:
+        shutil.rmtree(enc_tmp, ignore_errors=True)
     # ---- end-of-data expressions: DistinctCount rules whose evaluation fails only for particular counts -----------------
     END_EXPRESSIONS = ["% (count - 2) == 0", "/ (count - 1) > 0", "< [5, 6, 7][count]", "== {0: 0, 1: 1}[count]", "< int('1' * (1 + count * 2200))",
                        "< 3 if count < 3 else count.missing", "< 2 or undefined_name", "< 10 and count / (count - 3) != 2", "<= (1, 2)[count - 1]", "< 5"]
@@ -244,7 +290,11 @@ def run(ctx):
         sys.stderr = open(os.devnull, "w")
         good = "17,x,red,1.50,31.12.2024,a.txt,ab1\n"
         blobs = {"undecodable": good.encode("cp1252") + b"18,\x81\x8d,red,,,,\n", "unterminated-quote": (good + '19,"x,red,,,,\n').encode("cp1252"),
-                 "nul-byte": (good + "20,\x00,red,,,,\n").encode("cp1252"), "only-cr": good.replace("\n", "\r").encode("cp1252"), "empty": b"", "bom": b"\xef\xbb\xbf" + good.encode("cp1252")}
+                 "nul-byte": (good + "20,\x00,red,,,,\n").encode("cp1252"), "only-cr": good.replace("\n", "\r").encode("cp1252"), "empty": b"", "bom": b"\xef\xbb\xbf" + good.encode("cp1252"),
+                 # the same faults in the very first line, and in a file of a single line without line end
+                 "first-line-text-after-quote": ('17,"x"y,red,,,,\n' + good).encode("cp1252"), "single-line-unterminated-quote": b'17,"x,red',
+                 "first-line-undecodable": b"\x81\x8d,x\n" + good.encode("cp1252"), "first-line-nul": ("\x00\n" + good).encode("cp1252"),
+                 "single-line-text-after-quote": b'17,"x"y'}
         for name, blob in blobs.items():
             path = os.path.join(tmp, name + ".csv")
             with open(path, "wb") as f:
@@ -386,7 +436,7 @@ def run(ctx):
             f.write("h\n" + good)
         n_cli = 0
         for (fmt, i, j, h, rows) in cases:
-            if fmt != "delimited" or i < 0 or "\x00" in h or (n_cli >= 400 and ctx.tier == "quick" and zlib.crc32(repr((i, j, h)).encode("utf-8", "replace")) % 7):
+            if fmt != "delimited" or i < 0 or "\x00" in h or any(0xD800 <= ord(ch_) <= 0xDFFF for ch_ in h) or (n_cli >= 400 and ctx.tier == "quick" and zlib.crc32(repr((i, j, h)).encode("utf-8", "replace")) % 7):
                 continue
             n_cli += 1
             cid_path = os.path.join(tmp, "cid.csv")
